@@ -12,6 +12,9 @@ CHECKS = {
  "C15": dict(technique="choice-prefix DFS computing the complete random outcome set of each expression, compared with min-mode and max-mode runs",
              text="For every expression of the bounded family the set of all random outcomes is enumerated exhaustively and must lie between the min-mode and max-mode results, which must draw no randomness; plain XdY terms must attain both bounds.",
              note="Expression family bounded (X<=3,Y<=4 quick); WoD/DC outside the property's quantifier.", ref="DESIGN.md §4 C15"),
+ "C12": dict(technique="explicit-state BFS of ValueMap's internal states to closure + preemption-bounded schedule enumeration under a cooperative scheduler (sync shim overlay) with brute-force linearizability checking",
+             text="Sequential: every reachable canonical internal state of the real ValueMap (3 keys x 2 values) is visited and every operation is compared with a plain map in every state (closure, not a depth bound). Concurrent: every schedule with <= 2-3 preemptions of 2-3 threads x 1-2 operations over 7 initial internal states, scheduling points at each mutex/atomic operation of valuemap.go; each complete call/return history must be linearizable and the quiescent contents must match a linearization.",
+             note="Sequentially consistent interleavings at mutex/atomic granularity (Go memory-model reorderings not modelled); Range/Length overlapping writers held to sync.Map's documented weak contract; the shim is trusted to behave like sync when no scheduler is installed.", ref="DESIGN.md §4 C12"),
 }
 PENDING = {}
 def main():
